@@ -253,6 +253,38 @@ def check_number_reused_later(gap_ms, nseg, obs):
         node.close()
 
 
+def check_slow_segments(gap_ms, nseg, order_seed, obs):
+    ''' The segments of one transfer arrive slowly: every gap is below the receiver's one-second reassembly time-out (which each
+    new segment restarts), the whole transfer takes longer than that.  Each segment arrives once: the bundle is queued once. '''
+    node = BtpuNode(None)
+    try:
+        bundle = bundle_of(20 * nseg, 9)
+        payloads = [bw.encode_msg(dict(type=bw.T_END if idx == nseg - 1 else bw.T_SEG, hints=[], body=bw.seg_body(6, idx, bundle[idx * 20:(idx + 1) * 20])))
+                    for idx in range(nseg)]
+        order = list(range(nseg))
+        random.Random(order_seed).shuffle(order)
+        for pos, idx in enumerate(order):
+            if pos:
+                node.sim.advance(gap_ms * 10 ** 6)
+            try:
+                node.recv(payloads[idx], PEER_MAC)
+            except Exception as err:  # pylint: disable=broad-except
+                return ['segment %d: the receive path raised %s' % (idx, type(err).__name__)]
+        node.sim.advance(3 * 10 ** 9)
+        obs['receive_histories'] += 1
+        obs['slow_segment_histories'] = obs.get('slow_segment_histories', 0) + 1
+        popped = [bytes(node.call('recv_bundle_pop_data', tid)) for tid in node.queue()]
+        problems = []
+        if popped != [bundle]:
+            problems.append('%d segments arriving %d ms apart in order %s (every gap below the reassembly time-out, %d ms in all): each arrived once but %d '
+                            'bundle(s) were queued' % (nseg, gap_ms, order, gap_ms * (nseg - 1), len(popped)))
+        if node.sim.world.callback_errors:
+            problems.append('a receiver timer raised %s' % node.sim.world.callback_errors[0].exc_type)
+        return problems
+    finally:
+        node.close()
+
+
 def rand_msg(rng):
     mtype = rng.choice([bw.T_BUNDLE, bw.T_SEG, bw.T_END, bw.T_PADDING])
     hints = []
@@ -402,6 +434,10 @@ def run_case(case):
                     arrivals = [(key, idx, payloads[idx], PEER_MAC) for idx in perm]
                     note(check_receive(arrivals, {key: (bundle, nseg)}, obs), 'oracle-segments', dict(n=nseg, order=list(perm), hint=with_hint),
                          'oracle|%d|%s|%s' % (nseg, perm, with_hint))
+        for (gap_ms, nseg) in ((260, 5), (400, 4), (900, 3), (990, 2), (100, 5)):
+            for order_seed in (0, 1, 2):
+                note(check_slow_segments(gap_ms, nseg, order_seed, obs), 'slow-segments', dict(gap_ms=gap_ms, nseg=nseg, order_seed=order_seed),
+                     'slow|%d|%d|%d' % (gap_ms, nseg, order_seed))
         for gap_ms in (300, 450):
             for nseg in (2, 3):
                 note(check_number_reused_later(gap_ms, nseg, obs), 'number-reused-later', dict(gap_ms=gap_ms, nseg=nseg), 'reuse-later|%d|%d' % (gap_ms, nseg))
